@@ -752,6 +752,11 @@ class HfProtocol(utils.EventEmitter):
 
             # Isolate the AT response code and parameters.
             raw_response = self.read_buffer[header + 2 : trailer]
+            if not raw_response:
+                # Two delimiters in a row: the second one is not the trailer of an
+                # empty response but (possibly) the header of the next response.
+                self.read_buffer = self.read_buffer[trailer:]
+                continue
 
             # Consume the response bytes (first, so that a response that cannot be
             # parsed does not stay in the way of the following ones).
